@@ -299,7 +299,7 @@ def run_traces(ctx, bcfg):
     import onnx
 
     rng = ctx.rng
-    n = 200 if ctx.tier == "quick" else 4000
+    n = 200 if ctx.tier == "quick" else 2500
     bc = "bcfg_fixed" if bcfg["shared_counter"] else "bcfg_pinned"
     coq_cases, coq_meta, wf_meta = [], [], []
     tot = _new_stats()
